@@ -17,11 +17,11 @@
 unsigned long nondet_u64(void); _Bool nondet_bool(void);
 typedef struct PageQ_Slot Slot_t;
 typedef struct PageQ_Iterator It_t;
-#define L105 CachedPA_allocate_lambda_page_allocator_cpp_105_7_op_call
-#define L108 CachedPA_allocate_lambda_page_allocator_cpp_108_7_op_call
-#define L127 CachedPA_deallocate_lambda_page_allocator_cpp_127_7_op_call
-#define L132 CachedPA_deallocate_lambda_page_allocator_cpp_132_7_op_call
-#define L79 CachedPA_CachedPageAllocator_lambda_page_allocator_cpp_79_7_op_call
+#define L105 CachedPA_allocate_lambda_page_allocator_allocate_1_op_call
+#define L108 CachedPA_allocate_lambda_page_allocator_allocate_2_op_call
+#define L127 CachedPA_deallocate_lambda_page_allocator_deallocate_1_op_call
+#define L132 CachedPA_deallocate_lambda_page_allocator_deallocate_2_op_call
+#define L79 CachedPA_CachedPageAllocator_lambda_page_allocator_dtor_CachedPageAllocator_1_op_call
 #define TOK(s) ((uintptr_t)(0x100000UL + ((unsigned long)(s) << 12)))
 #define SEQ_MAX (1UL << 40)
 #define N_MAX (1UL << 32)
@@ -109,7 +109,7 @@ It_t vf_copy_n_to_q(void **src, unsigned long n, It_t dst) {
     __CPROVER_assert(g_seq == before + 1 && (uintptr_t)g_rslot[0].value == TOK(before), "K5 C17.allocate on a cache miss: the slot is filled with one fresh upstream page"); \
     g_q_in++; \
   }
-void PageQ_pop_n__lambda_page_allocator_cpp_105_7_lambda_page_allocator_cpp_108_7(struct PageQ *q, struct lambda_page_allocator_cpp_105_7 *cb, struct lambda_page_allocator_cpp_108_7 *rcb, unsigned long num) {
+void PageQ_pop_n__lambda_page_allocator_allocate_1_lambda_page_allocator_allocate_2(struct PageQ *q, struct lambda_page_allocator_allocate_1 *cb, struct lambda_page_allocator_allocate_2 *rcb, unsigned long num) {
   __CPROVER_assert(num <= g_cap, "K5 C17.allocate takes at most capacity pages from the cache queue in one pop_n");
   size_t first = nondet_u64(); __CPROVER_assume(first <= num);
   REVERSE_POP_PHASE(rcb)
@@ -142,7 +142,7 @@ void PageQ_pop_n__lambda_page_allocator_cpp_105_7_lambda_page_allocator_cpp_108_
     __CPROVER_assert(g_up_dealloc == before + 1 && g_rev_page == 0, "K5 C17.deallocate on a full cache: the evicted page goes upstream exactly once"); \
     g_q_out++; \
   }
-void PageQ_push_n__lambda_page_allocator_cpp_127_7_lambda_page_allocator_cpp_132_7(struct PageQ *q, struct lambda_page_allocator_cpp_127_7 *cb, struct lambda_page_allocator_cpp_132_7 *rcb, unsigned long num) {
+void PageQ_push_n__lambda_page_allocator_deallocate_1_lambda_page_allocator_deallocate_2(struct PageQ *q, struct lambda_page_allocator_deallocate_1 *cb, struct lambda_page_allocator_deallocate_2 *rcb, unsigned long num) {
   __CPROVER_assert(num <= g_cap, "K5 C17.deallocate puts at most capacity pages into the cache queue in one push_n");
   size_t first = nondet_u64(); __CPROVER_assume(first <= num);
   g_mode = 1;
@@ -163,7 +163,7 @@ void PageQ_push_n__lambda_page_allocator_cpp_127_7_lambda_page_allocator_cpp_132
   g_mode = 0;
 }
 /* try_pop_n<false,false>(cb, n): takes min(n, size) slots, in one or two ranges */
-size_t PageQ_try_pop_n__0_0_lambda_page_allocator_cpp_79_7_void(struct PageQ *q, struct lambda_page_allocator_cpp_79_7 *cb, unsigned long num) {
+size_t PageQ_try_pop_n__0_0_lambda_page_allocator_dtor_CachedPageAllocator_1_void(struct PageQ *q, struct lambda_page_allocator_dtor_CachedPageAllocator_1 *cb, unsigned long num) {
   size_t m = g_cached < num ? g_cached : num;
   size_t first = nondet_u64(); __CPROVER_assume(first <= m);
   g_mode = 2;
@@ -221,7 +221,7 @@ __CPROVER_requires(SHAPE_D(a) && g_cached <= g_cap)
 __CPROVER_assigns(g_up_dealloc, g_q_out, g_mode, g_drained)
 __CPROVER_ensures(g_drained == g_cached && g_up_dealloc == g_cached && g_q_out == g_cached)
 ;
-//@loop CachedPA_CachedPageAllocator_lambda_page_allocator_cpp_79_7_op_call 1
+//@loop CachedPA_CachedPageAllocator_lambda_page_allocator_dtor_CachedPageAllocator_1_op_call 1
 //@  VF_REBASE(iter._slot, g_slots)
 //@  __CPROVER_assigns(iter, __t1, __t2, g_up_dealloc, g_drained)
 //@  __CPROVER_loop_invariant(__CPROVER_same_object(iter._slot, g_slots) && iter._slot == g_slots + g_drained && iter._slot <= end._slot && g_mode == 2)
